@@ -69,7 +69,7 @@ def programs():
 CLIENT_IDS = [0, b'c1', None, ('t', 3), '', b'']
 
 
-def make_inputs(profile, seed):
+def make_inputs(profile, seed, typed_keys=False):
   import jax
   import jax.numpy as jnp
   shared = {'w': jnp.asarray([1.0, 2.0 + seed % 3]), 'b': jnp.asarray(3, jnp.int32)}
@@ -80,6 +80,8 @@ def make_inputs(profile, seed):
     batches = [{'x': jnp.asarray([1.0 + i, 2.0 + j + 0.5 * (seed % 2)]),
                 '__mask__': jnp.asarray([True, k < 2])} for j in range(k)]
     ci = {'scale': jnp.asarray(1.0 + i), 'key': jax.random.PRNGKey(10 + i)}
+    if typed_keys:
+      ci['key'] = jax.random.key(10 + i)   # new-style typed key with the same key data
     clients.append((CLIENT_IDS[i], batches, ci))
   return shared, clients
 
@@ -133,6 +135,14 @@ def leaves(t):
   return jax.tree_util.tree_leaves(t)
 
 
+def _np(l, copy=False):
+  """numpy value of a leaf; typed PRNG keys are represented by their key data."""
+  import jax
+  if hasattr(l, 'dtype') and jax.dtypes.issubdtype(l.dtype, jax.dtypes.prng_key):
+    l = jax.random.key_data(l)
+  return np.array(l, copy=True) if copy else np.asarray(l)
+
+
 def fold(case):
   """One (program, profile): every backend of the case against the sequential fold."""
   import jax
@@ -143,9 +153,9 @@ def fold(case):
   outs = set()
   for backend in case['backends']:
     nc = dict(case, backends=[backend])
-    shared, clients = make_inputs(profile, case.get('seed', 0))
+    shared, clients = make_inputs(profile, case.get('seed', 0), bool(case.get('typed_keys')))
     expect = sequential(prog, shared, clients)
-    snaps = [np.array(l, copy=True) for l in leaves((shared, [(b, ci) for _, b, ci in clients]))]
+    snaps = [_np(l, True) for l in leaves((shared, [(b, ci) for _, b, ci in clients]))]
     f = backend_fn(pname, backend)
     it = iter(clients) if case.get('iter') else clients
     got = list(f(shared, it))
@@ -158,7 +168,7 @@ def fold(case):
       require(jax.tree_util.tree_structure(g[1]) == jax.tree_util.tree_structure(eo), 'client %r: output structure' % cid,
               case=nc)
       for a, b in zip(leaves(g[1]), leaves(eo)):
-        a, b = np.asarray(a), np.asarray(b)
+        a, b = _np(a), _np(b)
         require(a.shape == b.shape and a.dtype == b.dtype, 'client %r: output leaf shape/dtype' % cid,
                 [list(b.shape), str(b.dtype)], [list(a.shape), str(a.dtype)], case=nc)
         require(bool(np.allclose(a.astype(np.float64), b.astype(np.float64), rtol=1e-5, atol=1e-6)),
@@ -170,8 +180,8 @@ def fold(case):
                 len(g[2]), case=nc)
         for j, (ra, rb) in enumerate(zip(g[2], er)):
           for a, b in zip(leaves(ra), leaves(rb)):
-            require(bool(np.allclose(np.asarray(a, np.float64), np.asarray(b, np.float64), rtol=1e-5, atol=1e-6)),
-                    'client %r: step result %d differs' % (cid, j), np.asarray(b).tolist(), np.asarray(a).tolist(),
+            require(bool(np.allclose(_np(a).astype(np.float64), _np(b).astype(np.float64), rtol=1e-5, atol=1e-6)),
+                    'client %r: step result %d differs' % (cid, j), _np(b).tolist(), _np(a).tolist(),
                     case=nc)
       else:
         require(len(g) == 2, 'unexpected step results', case=nc)
@@ -180,7 +190,7 @@ def fold(case):
       if isinstance(l, jax.Array):
         require(not l.is_deleted(), 'a caller array (shared input / client input / batch) was deleted by the backend',
                 case=nc)
-      require(np.array_equal(np.asarray(l), s), 'a caller array was modified', s.tolist(), np.asarray(l).tolist(), case=nc)
+      require(np.array_equal(_np(l), s), 'a caller array was modified', s.tolist(), _np(l).tolist(), case=nc)
     # outputs must stay valid after the caller drops its inputs
     for g in got:
       for a in leaves(g[1]):
@@ -193,18 +203,18 @@ def fold(case):
     require(sorted(map(repr, got2)) == sorted(map(repr, expect2)), 'second call: result ids differ', case=nc)
     for cid, (eo, er) in expect2.items():
       for a, b in zip(leaves(got2[cid][1]), leaves(eo)):
-        require(bool(np.allclose(np.asarray(a, np.float64), np.asarray(b, np.float64), rtol=1e-5, atol=1e-6)),
+        require(bool(np.allclose(_np(a).astype(np.float64), _np(b).astype(np.float64), rtol=1e-5, atol=1e-6)),
                 'client %r: a second call with an updated shared input returned results for a stale shared input' % cid,
-                np.asarray(b).tolist(), np.asarray(a).tolist(), case=nc)
+                _np(b).tolist(), _np(a).tolist(), case=nc)
     # the results of the FIRST call are still what they were (looked at again after the second call on the same object)
     for g in got:
       for a, b in zip(leaves(g[1]), leaves(expect[g[0]][0])):
         if isinstance(a, jax.Array):
           require(not a.is_deleted(), 'client %r: an output of the first call was invalidated by the second call' % (g[0],), case=nc)
-        require(bool(np.allclose(np.asarray(a, np.float64), np.asarray(b, np.float64), rtol=1e-5, atol=1e-6)),
-                'client %r: the output of the first call changed after a second call' % (g[0],), np.asarray(b).tolist(),
-                np.asarray(a).tolist(), case=nc)
-    outs.add(core.digest([[repr(c), [np.asarray(x, np.float64).round(4).tolist() for x in leaves(expect[c][0])]] for c in expect]))
+        require(bool(np.allclose(_np(a).astype(np.float64), _np(b).astype(np.float64), rtol=1e-5, atol=1e-6)),
+                'client %r: the output of the first call changed after a second call' % (g[0],), _np(b).tolist(),
+                _np(a).tolist(), case=nc)
+    outs.add(core.digest([[repr(c), [_np(x).astype(np.float64).round(4).tolist() for x in leaves(expect[c][0])]] for c in expect]))
     evals += 1
   return {'evals': evals, 'outcomes': sorted(outs), 'nontrivial': len(set(profile)) > 1 or 0 in profile,
           'keys': [[pname, profile, b] for b in case['backends']]}
@@ -373,6 +383,11 @@ SUBS = {'fold': fold, 'threads': threads}
 TIMEOUTS = {'fold': 1500, 'threads': 2400}
 
 
+# sub-spaces re-executed under other interpreter configurations (mc.core.CONFIGS): {configuration: {sub-space: stride}}
+# quick tier: every stride-th planned case, thorough tier: all planned cases
+CONFIG_PASSES = {'x64': {'fold': 8}}
+
+
 def plan(ctx):
   th = ctx.tier == 'thorough'
   n_max = 4 if th else 3
@@ -392,6 +407,9 @@ def plan(ctx):
       for prog in ('A', 'B', 'C'):
         fc.append({'prog': prog, 'profile': list(profile), 'backends': backends, 'seed': ctx.seed,
                    'iter': sum(profile) % 2 == 1})
+  for profile in ([1, 0, 2], [2, 2], [0]):
+    for prog in ('A', 'B'):
+      fc.append({'prog': prog, 'profile': profile, 'backends': backends, 'seed': ctx.seed, 'iter': False, 'typed_keys': True})
   # group by program so that each worker compiles few backends: chunk = contiguous cases
   ctx.pmap('fold', fc, chunk=max(4, len(fc) // 32))
   p1 = enum_programs(1)
